@@ -40,6 +40,9 @@ func runC08(c HistCase, o *run.Obs) error {
 			if call.Name != want {
 				return fmt.Errorf("node written under name %q but base64url(BLAKE2b-256(bytes)) is %q (%d bytes)", call.Name, want, len(call.Bytes))
 			}
+			if !bytes.Equal(call.Given, call.Bytes) {
+				return fmt.Errorf("the %d bytes handed to Store(%s) were modified after the call (a store may keep the slice it is given): they no longer hash to their name", len(call.Bytes), call.Name)
+			}
 			n, err := w.Cfg.DecodeNode(call.Bytes)
 			if err != nil {
 				return fmt.Errorf("bytes written as %s do not decode with the reference decoder: %w", call.Name, err)
